@@ -16,7 +16,7 @@ def deadline_s(tier):
     d = os.environ.get("VERIF_DEADLINE_S")
     if d:
         return float(d)
-    return 600.0 if tier == "quick" else 2400.0
+    return 600.0 if tier == "quick" else 3600.0
 
 
 _num = re.compile(r"\d+")
